@@ -19,7 +19,7 @@ from . import silent
 HERE = os.path.dirname(os.path.dirname(os.path.dirname(os.path.abspath(__file__))))
 REVERTS = {
     "revert_F1_align_end.diff": ["C01", "C12", "C13"], "revert_F2_queue_tie.diff": ["C14"], "revert_F3_kernel_aggr.diff": ["C05"],
-    "revert_F4_gzip.diff": ["C20"], "revert_F5_string_dtype.diff": ["C18"], "revert_F6_drop_axis.diff": ["C08"],
+    "revert_F4_gzip.diff": ["C20"], "revert_F5_string_dtype.diff": ["C18"], "revert_F6_drop_axis.diff": ["C08"], "revert_F7_ts_downcast.diff": ["C01"],
 }
 
 
